@@ -1138,16 +1138,15 @@ def run(ctx):
     else:
         plan = [("quick", 3, 3)]
         deadline = 50
+    # schedule part first (a refresh in one thread while another thread queries the cache, pysched):
+    # every execution starts with a gc.collect(), which must not have to walk the BFS results
+    from . import c08_sched
+
+    sched = c08_sched.run_part(ctx)
     phases = []
     for level, d0, dmax in plan:
         ctx.log(f"phase alphabet={level} depth {d0}..{dmax}")
         phases.append(_phase(ctx, level, d0, dmax, deadline))
-    # schedule part: a refresh in one thread while another thread queries the cache (pysched)
-    global _ACTIVE
-    _ACTIVE = None  # the listing/scandir seams of the BFS part stay installed but inert
-    from . import c08_sched
-
-    sched = c08_sched.run_part(ctx)
     n_states, n_amb, amb_samples = 0, 0, []
     for fn in sorted(os.listdir(_MEMO_DIR)):
         if not fn.endswith(".json"):
